@@ -31,7 +31,9 @@ Definition dom_run (r : stack -> expr -> value * stack) (S : stack) (nd : N * do
   | DList e => let (v, S1) := r S e in ((fst nd, Some (dom_values v), false), S1)
   | DRange lo hi =>
       let (a, S1) := r S lo in let (b, S2) := r S1 hi in
-      ((fst nd, match a, b with VNum x, VNum y => Some (range_values x y) | _, _ => None end, poison a || poison b), S2)
+      ((fst nd, match a, b with
+                | VNum x, VNum y => match num_int x, num_int y with Some x', Some y' => Some (range_values x' y') | _, _ => None end
+                | _, _ => None end, poison a || poison b), S2)
   end.
 
 Section Machine.
